@@ -228,7 +228,7 @@ func (inst[A, B, I]) build(p *Program, decl []Call) (c compiled, cerr error, pv 
 		case "L":
 			wf.AddLambdaNode("L0", predLambda[A, A](0, p.Src[0])).AddInput(compose.START)
 			key[0] = "L0"
-		case "SL":
+		case "SL", "SLi":
 			wf.AddLambdaNode("L1", predLambda[A, B](1, p.Src[1])).AddInput(compose.START)
 			key[1] = "L1"
 		case "LL":
@@ -250,6 +250,10 @@ func (inst[A, B, I]) build(p *Program, decl []Call) (c compiled, cerr error, pv 
 					ms = append(ms, m)
 				}
 			}
+			if p.Shape == "SLi" && call.Slot == 0 {
+				s.AddInputWithOptions(key[call.Slot], ms, compose.WithNoDirectDependency())
+				continue
+			}
 			s.AddInput(key[call.Slot], ms...)
 		}
 		wf.End().AddInput("S")
@@ -265,7 +269,7 @@ func (c *comp[A, B, I]) run(stream bool, gens [2]func() any, srcTypes []string) 
 	e := &runEnv{gens: gens, mergeOK: true}
 	// START's value: predecessor slot 0 when START is a predecessor, otherwise only the trigger
 	startVal := gens[0]()
-	startIsPred := c.shape == "S" || c.shape == "SL"
+	startIsPred := c.shape == "S" || c.shape == "SL" || c.shape == "SLi"
 	ctx := context.WithValue(context.Background(), envKey{}, e)
 	o.Panic = catch(func() {
 		if !stream {
